@@ -52,7 +52,196 @@ fn main() {
         let seq = random_sequence(&uni, &mut r, len);
         run_sequence(&uni, &ctx, &mut out, &seq, ObsMode::All, true);
     }
+
+    // 3. argument wiring: every word over {set, unset} x argument names x sources for one
+    //    instantiation (one node under several argument names, in every order)
+    let wordlen = args.num("argwords", if args.thorough() { 5 } else { 4 });
+    arg_words(&uni, &ctx, &mut out, wordlen, shard, nshards);
+
+    // 4. random argument walks: set / unset / remove around instantiations whose arguments share sources
+    let nwalks = args.num("argwalks", if args.thorough() { 4000 } else { 300 });
+    for i in 0..nwalks {
+        if i % nshards != shard {
+            continue;
+        }
+        let mut r = Rng::new(args.seed.wrapping_mul(7_000_003).wrapping_add(i as u64 + 0xA26));
+        let seq = arg_walk(&uni, &mut r);
+        out.count("argwalk:histories");
+        run_sequence(&uni, &ctx, &mut out, &seq, ObsMode::All, true);
+    }
     out.finish();
+}
+
+/// Settings for `arg_words`: (prefix, instantiation node, argument names, source nodes).
+/// Package 0 (`test:a`) imports `f` and `g`, both `func()`, so ONE node can be passed under both
+/// names; its exports `f`, `h` are `func()` too.
+fn arg_settings() -> Vec<(&'static str, usize, Vec<&'static str>, Vec<usize>)> {
+    vec![
+        // the source is an alias of another instance's export
+        ("reg:0;inst:0:0;inst:0:0;alias:0:f", 1, vec!["f", "g"], vec![2]),
+        // the source is an explicit import
+        ("reg:0;inst:0:0;imp:x:func", 0, vec!["f", "g"], vec![1]),
+        // two sources (an alias and an import) compete for the two names
+        ("reg:0;inst:0:0;inst:0:0;alias:0:h;imp:x:func", 1, vec!["f", "g"], vec![2, 3]),
+        // two instantiations of the same package share the source: instance 1's own export is
+        // wired back into instance 0 and instance 1
+        ("reg:0;inst:0:0;inst:0:0;alias:1:f;set:0:f:2;set:0:g:2", 1, vec!["f", "g"], vec![2]),
+    ]
+}
+
+/// all words of exactly `len` letters over {set, unset} x names x sources, each observed after
+/// every step (a word's prefixes are observed as part of it)
+fn arg_words(uni: &Uni, ctx: &[String], out: &mut Out, len: usize, shard: usize, nshards: usize) {
+    let nm = |s: &str| NAMES.iter().position(|n| *n == s).unwrap();
+    let mut counter = 0usize;
+    for (prefix, inst, names, srcs) in arg_settings() {
+        let prefix = parse_ops(prefix);
+        let mut letters: Vec<Op> = Vec::new();
+        for s in &srcs {
+            for n in &names {
+                letters.push(Op::Set(inst, nm(n), *s));
+                letters.push(Op::Unset(inst, nm(n), *s));
+            }
+        }
+        // two sources double the alphabet: one letter less
+        let len = if srcs.len() > 1 { len.saturating_sub(1).max(1) } else { len };
+        let total = letters.len().pow(len as u32);
+        for w in 0..total {
+            counter += 1;
+            if counter % nshards != shard {
+                continue;
+            }
+            let mut seq = prefix.clone();
+            let mut x = w;
+            for _ in 0..len {
+                seq.push(letters[x % letters.len()].clone());
+                x /= letters.len();
+            }
+            out.count("argwords:histories");
+            run_sequence(uni, ctx, out, &seq, ObsMode::All, false);
+        }
+    }
+}
+
+/// a random history concentrated on argument edges: a few packages, instantiations and sources,
+/// then set / unset (preferring sources that already supply another argument of the same
+/// instantiation, and unsetting ANY of the existing edges, not just the newest) with an
+/// occasional removal of a source or an instantiation
+fn arg_walk(uni: &Uni, r: &mut Rng) -> Vec<Op> {
+    let nm = |s: &str| NAMES.iter().position(|n| *n == s).unwrap();
+    let mut st = State::new(uni);
+    let mut seq: Vec<Op> = Vec::new();
+    fn push(uni: &Uni, st: &mut State, seq: &mut Vec<Op>, op: Op) -> bool {
+        let res = st.apply(uni, &op);
+        seq.push(op);
+        !res.is_panic()
+    }
+    // packages: definition 0 (two same-typed imports) most of the time, plus others
+    let mut defs: Vec<usize> = Vec::new();
+    if r.chance(5, 6) {
+        defs.push(0);
+    }
+    for d in [1usize, 2] {
+        if r.chance(1, 2) {
+            defs.push(d);
+        }
+    }
+    if defs.is_empty() {
+        defs.push(3);
+    }
+    r.shuffle(&mut defs);
+    for d in &defs {
+        if !push(uni, &mut st, &mut seq, Op::Reg(*d)) {
+            return seq;
+        }
+    }
+    let pkgs: Vec<(usize, usize)> =
+        st.dump.packages.iter().enumerate().filter(|(_, p)| p.1.is_some()).map(|(i, p)| (i, p.0)).collect();
+    let ninst = 1 + r.below(3);
+    for _ in 0..ninst {
+        let (s, g) = *r.pick(&pkgs);
+        if !push(uni, &mut st, &mut seq, Op::Inst(s, g)) {
+            return seq;
+        }
+    }
+    // sources: aliases of instance exports and explicit imports
+    let nsrc = 1 + r.below(3);
+    for k in 0..nsrc {
+        let insts: Vec<usize> = st.dump.nodes.iter().filter(|n| n.kind == 2).map(|n| n.idx).collect();
+        let op = if r.chance(2, 3) && !insts.is_empty() {
+            let i = *r.pick(&insts);
+            let exports: Vec<usize> = match uni.kinds[st.dump.node(i).unwrap().item] {
+                wac_graph::types::ItemKind::Instance(id) => uni.base.types()[id].exports.keys().map(|k| nm(k)).collect(),
+                _ => vec![],
+            };
+            if exports.is_empty() {
+                continue;
+            }
+            Op::Alias(i, *r.pick(&exports))
+        } else {
+            Op::Imp(nm(["x", "h", "n"][k % 3]), *r.pick(&uni.import_kinds))
+        };
+        if !push(uni, &mut st, &mut seq, op) {
+            return seq;
+        }
+    }
+    let steps = 4 + r.below(12);
+    for _ in 0..steps {
+        let d = &st.dump;
+        let live: Vec<usize> = d.nodes.iter().map(|n| n.idx).collect();
+        let insts: Vec<usize> = d.nodes.iter().filter(|n| n.kind == 2).map(|n| n.idx).collect();
+        if insts.is_empty() || live.is_empty() {
+            break;
+        }
+        let inst = *r.pick(&insts);
+        let imports: Vec<(usize, usize)> = match d.node(inst).and_then(|nd| nd.pkg).and_then(|(s, _)| d.packages.get(s).and_then(|p| p.1)) {
+            Some(def) => uni.base.types()[uni.pkgs[def].ty()].imports.iter().map(|(k, v)| (nm(k), uni.kind_of(*v))).collect(),
+            None => vec![],
+        };
+        if imports.is_empty() {
+            break;
+        }
+        // argument edges into `inst`: (source, argument index)
+        let existing: Vec<(usize, usize)> = d.node(inst).unwrap().ins.iter().filter(|e| e.1 == 1).map(|e| (e.0, e.2)).collect();
+        let w = r.below(100);
+        let op = if w < 45 {
+            let (name, want) = *r.pick(&imports);
+            let src = if !existing.is_empty() && r.chance(3, 5) {
+                r.pick(&existing).0
+            } else {
+                let fitting: Vec<usize> = d.nodes.iter().filter(|n| uni.sub[n.item][want]).map(|n| n.idx).collect();
+                if !fitting.is_empty() && r.chance(4, 5) {
+                    *r.pick(&fitting)
+                } else {
+                    *r.pick(&live)
+                }
+            };
+            Op::Set(inst, name, src)
+        } else if w < 85 {
+            if !existing.is_empty() && r.chance(5, 6) {
+                let (src, ix) = *r.pick(&existing);
+                Op::Unset(inst, imports.get(ix).map(|x| x.0).unwrap_or(imports[0].0), src)
+            } else {
+                Op::Unset(inst, r.pick(&imports).0, *r.pick(&live))
+            }
+        } else if w < 93 {
+            // remove a source (all the arguments it supplies become unsatisfied) or any node
+            if !existing.is_empty() && r.chance(2, 3) {
+                Op::Rm(r.pick(&existing).0)
+            } else {
+                Op::Rm(*r.pick(&live))
+            }
+        } else if w < 97 {
+            let (s, g) = *r.pick(&pkgs);
+            if d.nodes.len() < MAX_NODES { Op::Inst(s, g) } else { Op::Rm(*r.pick(&live)) }
+        } else {
+            Op::Exp(*r.pick(&live), nm(["x", "g", "k"][r.below(3)]))
+        };
+        if !push(uni, &mut st, &mut seq, op) {
+            break;
+        }
+    }
+    seq
 }
 
 /// scenario prefixes (ops text).  Package defs: 0 = test:a, 1 = test:b@1.0.0, 2 = test:c, 3 = test:a (other content)
@@ -72,6 +261,9 @@ fn scenarios() -> Vec<&'static str> {
         "reg:1;inst:0:0;imp:f:func;imp:i:inst;set:0:f:1;set:0:i:2;alias:0:i;alias:3:x",
         // slot reuse of nodes and packages
         "reg:0;inst:0:0;alias:0:f;rm:0;reg:2;unreg:0:0;reg:1;inst:0:1",
+        // ONE node supplies two arguments of one instantiation (set in either order)
+        "reg:0;inst:0:0;inst:0:0;alias:0:f;set:1:f:2;set:1:g:2",
+        "reg:0;inst:0:0;imp:x:func;set:0:g:1;set:0:f:1",
     ]
 }
 
